@@ -149,7 +149,7 @@ func (s *Solver) define(t *Term) {
 		}
 		switch u.Op {
 		case OpVar:
-			s.send(fmt.Sprintf("(declare-const %s %s)", smtName(u.Name), u.sortStr()))
+			s.send(fmt.Sprintf("(declare-const %s %s)", u.ref(), u.sortStr()))
 			s.declV[u.Name] = true
 		case OpApp:
 			if !s.declF[u.Name] {
@@ -462,7 +462,7 @@ func Script(ts *Terms, asserts []*Term, getVars []*Term) string {
 		}
 		switch t.Op {
 		case OpVar:
-			fmt.Fprintf(&sb, "(declare-const %s %s)\n", smtName(t.Name), t.sortStr())
+			fmt.Fprintf(&sb, "(declare-const %s %s)\n", t.ref(), t.sortStr())
 		case OpApp:
 			if !declF[t.Name] {
 				fmt.Fprintf(&sb, "(declare-fun %s (", smtName(t.Name))
